@@ -112,8 +112,12 @@ def write_nifti_image(data: Tensor, grid: Grid, path: PathUri) -> None:
         raise ValueError("write_image() data.ndim must be equal to grid.ndim or grid.ndim + 1")
     # Reverse order of axes
     dataobj = np.transpose(data.numpy(), axes=tuple(reversed(range(data.ndim))))
+    # Homogeneous matrix mapping voxel indices to world coordinates
+    D = grid.ndim
+    affine = np.eye(4)
+    affine[:D, :D] = grid.affine().cpu().numpy()
+    affine[:D, 3] = grid.origin().cpu().numpy()
     # Convert to NIfTI RAS convention
-    affine = grid.affine().cpu().numpy()
     affine[:2] *= -1
     with StorageObject.from_path(path) as obj:
         local_path = unlink_or_mkdir(obj.path)
